@@ -101,3 +101,52 @@ func c14EndBeforeStart(lit []byte) bool {
 func c14HasGroupA(lit []byte) bool {
 	return strings.Contains(string(lit), "{{a}}")
 }
+
+var c14Segs = []string{"x", "{{a}}", "{{b}}", "{{c()}}", "{{", "}}", " "}
+var c14Vals = []string{"v", "{{a}}", "{{b}}", "{{c()}}", "}}", "{{", "{{a}} {{b}}"}
+var c14Calls int
+
+type c14Counter struct {
+	*inbuildBaseFunc
+	ret string
+}
+
+func (f *c14Counter) Run(instanceID string, vs parser.Scope, is map[string]interface{}, tid uint64, args []interface{}) (interface{}, error) {
+	c14Calls++
+	return f.ret, nil
+}
+func (f *c14Counter) DocString() (string, error) { return "", nil }
+
+// VerifC14Segments: literals built from K segments (text, the groups {{a}} {{b}} {{c()}}, stray markers) while the
+// variables a, b and the result of c() hold text that looks like groups of the same literal: the result is the one-pass
+// reference result, and c() - which counts its calls - runs once per {{c()}} group of the literal, never for a {{c()}}
+// that arrived as data.
+func VerifC14Segments() {
+	erp := &ECALRuntimeProvider{Name: "t", Logger: util.NewMemoryLogger(10)}
+	ast, err := parser.ParseWithRuntime("t", "\"x\"", erp)
+	zz.Assert(err == nil, "C14.setup-parse")
+	k := zz.Param("K", 3)
+	lit := ""
+	for i := 0; i < k; i++ {
+		lit += c14Segs[zz.Choice("seg"+c07Lbl[i], len(c14Segs))]
+	}
+	vs := scope.NewScope(scope.GlobalScope)
+	vs.SetValue("a", c14Vals[zz.Choice("a", len(c14Vals))])
+	vs.SetValue("b", c14Vals[zz.Choice("b", len(c14Vals))])
+	InbuildFuncMap["c"] = &c14Counter{ret: c14Vals[zz.Choice("c", zz.Param("CV", 3)+1)]}
+	ast.Token.Val = lit
+	ast.Token.AllowEscapes = true
+	ast.Runtime.Validate()
+	zz.Terminates("(*github.com/krotik/ecal/interpreter.stringValueRuntime).Eval", k+2)
+	c14Calls = 0
+	zz.Reach("before-eval")
+	res, err := ast.Runtime.Eval(vs, make(map[string]interface{}), 1)
+	zz.Reach("after-eval")
+	got := c14Calls
+	str, isStr := res.(string)
+	zz.Assert(isStr && err == nil, "C14.yields-string")
+	c14Calls = 0
+	ref, _ := c14Ref(erp, ast, lit, vs, 1)
+	zz.Assert(str == ref, "C14.one-pass-result")
+	zz.Assert(got == c14Calls, "C14.each-own-expression-evaluated-once")
+}
